@@ -43,8 +43,13 @@ def promotion_script(draw):
     multi = 0
     # devices whose bookkeeping lives in sets/dicts
     for i in range(draw(st.integers(0, 3))):
-        nm = draw(st.sampled_from(["btn_a", "btn_z", "b1", "b2", "button", "knob"])) + str(i)
+        nm = draw(st.sampled_from(["btn_a", "btn_z", "b1", "b2", "button", "knob", "btn0", "btn00", "b", "B", "btn_", "Btn"])) + str(i)   # also names that differ only in a leading zero / case (btn1 / btn01)
         lines.append(f"{nm} = Button({2 + i})")
+    if draw(st.integers(0, 2)) == 0:
+        # names that a "natural" or case-folding sort key cannot tell apart: the emitted order must still not depend on the hash seed
+        pair = draw(st.sampled_from([("btn1", "btn01"), ("b7", "b007"), ("key2", "key02"), ("Btn3", "btn3"), ("k10", "k010")]))
+        lines += [f"{pair[0]} = Button(30)", f"{pair[1]} = Button(31)"]
+        multi += 1
     lcds = []
     for i in range(draw(st.integers(0, 2))):
         nm = draw(st.sampled_from(["lcd", "disp", "zlcd", "alcd"])) + str(i)
